@@ -142,6 +142,26 @@ def padeCore [DecidableEq α] (n : Nat) (Q : Mat α) (t : α) (q j : Nat) : Opti
 
 end pade
 
+/-! ## the eigen back-ends (`EigenExponentiator.__call__`, `CheckedExponentiator`'s reconstruction)
+
+`eig`, `inv` and `numpy.exp` are *inputs* here: `evT`, `evI` are the matrices stored by `FastExponentiator` /
+`CheckedExponentiator` (`roots, evT = eig(Q); ev = evT.T; evI = inv(ev)`), `e k` stands for `exp(t * roots[k])`. -/
+section eigen
+variable {α : Type u} [Zero α] [One α] [Add α] [Mul α]
+
+/-- `numpy.inner(self.evT * exp_roots, self.evI)`: `result[i, j] = ∑_k evT[i, k] * e[k] * evI[j, k]` -/
+def eigenCall (n : Nat) (evT evI : Mat α) (e : Vec α) : Mat α :=
+  tab n fun i j => sumTo n fun k => mget evT i k * vget e k * mget evI j k
+
+/-- `numpy.maximum(result, 0.0)` -/
+def clip0 [LT α] [DecidableLT α] (n : Nat) (P : Mat α) : Mat α :=
+  tab n fun i j => if mget P i j < 0 then 0 else mget P i j
+
+/-- `reQ = numpy.inner(ev.T * roots, evI)` of `CheckedExponentiator` -/
+def eigenReQ (n : Nat) (evT evI : Mat α) (roots : Vec α) : Mat α := eigenCall n evT evI roots
+
+end eigen
+
 /-! ## the float-driven choices of `j` and `q`, evaluated exactly over `Rat` -/
 
 def absR (x : Rat) : Rat := if x < 0 then -x else x
